@@ -415,16 +415,23 @@ def r17_9(prog, rep):
     f = prog.function(f"{C.INSP}.origin")
     bad = []
     decided = 0
-    for a in C.catalogue():
+    callables = [C.TypeArg("collections.abc.Callable"), C.TypeArg("typing.Callable"), C.TypeArg("collections.abc.Callable", True, ("[]", "builtins.str"))]
+    undecided = []
+    for a in list(C.catalogue()) + callables:
         if a.flags:
             continue
         want = pe_model.call(("call", ("ref", f.qualname), (("param", "x"),), ()), {"x": a}, 0)
         got = pe_code.call_function(f, [a], 0)
         if not isinstance(got, C.TypeArg) or not isinstance(want, C.TypeArg):
+            undecided.append(a.label())
             continue
         decided += 1
         if (got.cls, got.subscripted) != (want.cls, want.subscripted):
             bad.append(f"{a.label()}: origin() computes {got.label()}, the documented mapping gives {want.label()}")
+    if undecided and not bad:
+        # (every form of the catalogue is decided on the tree this rule was written for: a form that no longer is must not pass)
+        rep.undecided("R17.9", f.qualname, f.loc, f"origin() could not be interpreted on {undecided[:4]}", detail="catalogue")
+        return
     rep.check(not bad and decided >= 20, "R17.9", f.qualname, f.loc, f"interpreting origin() on {decided} catalogue forms reproduces the documented abstract-to-builtin mapping", f"origin() no longer computes the documented origin: {bad[:3]}" if bad else f"origin() could be interpreted on only {decided} catalogue forms", detail="catalogue")
 
 
